@@ -22,7 +22,8 @@ CONSTANT MaxSteps
 Attrs == {"tname", "tschema", "aname", "atype", "ename", "eschema", "iname"}
 Edits == {[op |-> "unset", a |-> x] : x \in Attrs} \cup {[op |-> "reset", a |-> x] : x \in Attrs}
          \cup {[op |-> o] : o \in {"delete_index", "add_index", "delete_col_a", "delete_col_b", "add_a_to_T", "add_b_to_T",
-                                   "add_b_to_U", "add_b_to_V", "set_inline", "unset_inline", "delete_table", "add_table"}}
+                                   "add_b_to_U", "add_b_to_V", "set_inline", "unset_inline", "delete_table", "add_table",
+                                   "refused_add_index"}}
 
 Clean == [set |-> [x \in Attrs |-> TRUE], itab |-> TRUE, atab |-> "T", btab |-> "T", rinline |-> FALSE, tdb |-> TRUE]
 
@@ -31,6 +32,7 @@ Enabled(st, e) ==
     [] e.op = "reset" -> ~st.set[e.a]
     [] e.op = "delete_index" -> st.itab
     [] e.op = "add_index" -> ~st.itab
+    [] e.op = "refused_add_index" -> ~st.itab       \* table U is asked to take index I, whose subject is a column of T: refused, nothing changes
     [] e.op = "delete_col_a" -> st.atab = "T"
     [] e.op = "delete_col_b" -> st.btab = "T"
     [] e.op = "add_a_to_T" -> st.atab = "none"
@@ -47,6 +49,7 @@ Apply(st, e) ==
     [] e.op = "reset" -> [st EXCEPT !.set[e.a] = TRUE]
     [] e.op = "delete_index" -> [st EXCEPT !.itab = FALSE]
     [] e.op = "add_index" -> [st EXCEPT !.itab = TRUE]
+    [] e.op = "refused_add_index" -> st
     [] e.op = "delete_col_a" -> [st EXCEPT !.atab = "none"]
     [] e.op = "delete_col_b" -> [st EXCEPT !.btab = "none"]
     [] e.op = "add_a_to_T" -> [st EXCEPT !.atab = "T"]
